@@ -115,6 +115,11 @@ func (s *Store) Eval(t *Term, env map[string]EVal, memo map[int]EVal) (EVal, err
 				return res, fmt.Errorf("division by zero")
 			}
 			res = EVal{R: new(big.Rat).Quo(args[0].R, args[1].R)}
+		case OpRecip:
+			if args[0].R.Sign() == 0 {
+				return res, fmt.Errorf("division by zero")
+			}
+			res = EVal{R: new(big.Rat).Inv(args[0].R)}
 		case OpIDiv, OpIMod:
 			if args[1].R.Sign() == 0 {
 				return res, fmt.Errorf("int division by zero")
